@@ -420,6 +420,7 @@ func chainMods(n int, p purposeKind) (viol []chainMod, benign []chainMod) {
 		} else {
 			b(fmt.Sprintf("ca-ku-noncritical@%d", i), i, func(d *chainDesc) { d.tm[i].KUNonCrit = true })
 		}
+		v(fmt.Sprintf("ca-ku-present-but-empty@%d", i), i, func(d *chainDesc) { d.tm[i].KeyUsage = 0 })
 		v(fmt.Sprintf("ca-ku-crlsign-only@%d", i), i, func(d *chainDesc) { d.tm[i].KeyUsage = x509.KeyUsageCRLSign })
 		v(fmt.Sprintf("ca-ku-digsig-only@%d", i), i, func(d *chainDesc) { d.tm[i].KeyUsage = x509.KeyUsageDigitalSignature })
 		b(fmt.Sprintf("ca-ku-extra-bits@%d", i), i, func(d *chainDesc) {
